@@ -716,11 +716,13 @@ structure Target where
   asStr : Bool := true
   deriving DecidableEq, Repr
 
-/-- `isinstance(fhandle, str)`: what the existence guard of `write_dict_hdf5` and the suffix rules of
-    the loaders test.  A path that is no `str` takes the *same route as an open handle* there:
-    no guard (h5py's `File(…, 'a')` opens the existing file and the first member whose name is
-    taken is refused by h5py itself), no auto-detection of the file type. -/
+/-- `isinstance(filename, str)`: what the suffix rules of the loaders test (no auto-detection of
+    the file type for a path that is no `str`), and the first alternative of the existence guard
+    of `write_dict_hdf5` -/
 def Target.isStr (t : Target) : Bool := t.isPath && t.asStr
+
+/-- `isinstance(fhandle, (bytes, os.PathLike))`: the other alternatives of the guard -/
+def Target.isOtherPath (t : Target) : Bool := t.isPath && !t.asStr
 
 inductive Content where
   | h5 (t : H5)
@@ -751,7 +753,7 @@ def dictAfter (ft : FType) (d : Val) : Val :=
 
 /-- `remove_file` if requested, then `write_dict_hdf5` / `write_dict_pkl`.  Parameters: `enc` the
     writer into a fresh group, `item` the writer of one value (for a group that already has
-    members), `guard isStr exists` the existence test of `write_dict_hdf5`.
+    members), `guard isStr isOtherPath exists` the existence test of `write_dict_hdf5`.
     Returns the new file system and the error if any.
 
     A save into an open handle that already holds something, without `overwrite`:
@@ -763,19 +765,18 @@ def dictAfter (ft : FType) (d : Val) : Val :=
       pickle), so the first pickle — what every loader reads — stays;
     * a file of the other type: no claim (`unspecified`).
 
-    A *path* that is not a `str` (`pathlib.Path`, `os.PathLike`, `bytes`) passes the guard as coded
-    (`isinstance(fhandle, str)`) and takes the same HDF5 route as a used handle: append mode opens
-    the existing file, `_write_to_group` merges, h5py refuses the first member whose name is
-    taken.  Pickle (repaired behaviour, see notes "pathlike-target"): every path is opened
-    `'wb'`. -/
-def writeDictWith (enc item : Val → Except Err H5) (guard : Bool → Bool → Bool)
+    Every *path* — a `str`, or a `pathlib.Path` / `os.PathLike` / `bytes` object — that exists is
+    refused by the guard before the file is opened (since /repo "hdf5-guard-pathlike"; the guard
+    used to test `str` only and other path objects took the route of a used handle).  Pickle:
+    every path is opened `'wb'`. -/
+def writeDictWith (enc item : Val → Except Err H5) (guard : Bool → Bool → Bool → Bool)
     (fs : FS) (t : Target) (ft : FType) (remove : Bool) (d : Val) : FS × Option Err :=
   let fs1 := if remove then FS.erase fs t else fs
   match ft with
   | .hdf5 =>
       match FS.lookup fs1 t with
       | some old =>
-          if guard t.isStr true then (fs1, some .fileExists)        -- nothing is touched
+          if guard t.isStr t.isOtherPath true then (fs1, some .fileExists)   -- nothing is touched
           else match old with
             | .h5 g =>
                 match writeInto item g d with
@@ -799,17 +800,16 @@ def writeDictWith (enc item : Val → Except Err H5) (guard : Bool → Bool → 
         | some (.pkl (d0 :: rest)) => (FS.put fs1 t (.pkl (d0 :: (rest ++ [d']))), Option.none)
         | some _ => (FS.put fs1 t .dirty, some .unspecified)
 
-/-- the specification: guard = "a `str` path that exists" (for a path handed over as another
-    object the refusal is h5py's own: `no_overwrite_guard_pathlike`) -/
+/-- the specification: guard = "a path that exists", however the path is handed over -/
 def writeDict (c : Codec) (fs : FS) (t : Target) (ft : FType) (overwrite : Bool) (d : Val) :
     FS × Option Err :=
-  writeDictWith (encode c) (encodeItem c) (fun isStr ex => isStr && ex) fs t ft overwrite d
+  writeDictWith (encode c) (encodeItem c) (fun isStr isOther ex => (isStr || isOther) && ex) fs t ft overwrite d
 
 /-- as coded: the generated dispatch and the generated guard of `write_dict_hdf5` -/
 def writeDictC (c : Codec) (fs : FS) (t : Target) (ft : FType) (remove : Bool) (d : Val) :
     FS × Option Err :=
   writeDictWith (encodeC c) (encodeItemC c)
-    (fun isStr ex => Rsa.Gen.C16.guard (b2n isStr) (b2n ex) == 1) fs t ft remove d
+    (fun isStr isOther ex => Rsa.Gen.C16.guard (b2n isStr) (b2n isOther) (b2n ex) == 1) fs t ft remove d
 
 /-- `load_*` without `file_type`: the suffix tests of the loader of that kind (generated);
     models have no loader of their own, the harness uses the RDMs rule -/
